@@ -54,7 +54,10 @@ Judge(e) ==
         <<"C07", (~e.faulted) =>
                    /\ seedcs.versions \subseteq final.versions
                    /\ \A r \in accepted : \E v \in final.versions :
-                         v.vid = resps[r].vid /\ v.parent = reqs[r].arg /\ v.tok = reqs[r].tok >>
+                         v.vid = resps[r].vid /\ v.parent = reqs[r].arg /\ v.tok = reqs[r].tok
+                   \* "every later request for the child of its parent returns that same version"
+                   /\ \A r \in accepted : \E v \in SetOf(e.final.k) :
+                         v.vid = resps[r].vid /\ v.parent = reqs[r].arg >>
       >>
       bad == {checks[i][1] : i \in {j \in DOMAIN checks : ~checks[j][2]}}
   IN /\ (bad # {} => PrintT(<<"VIOL", l, e.run, e.i, bad>>))
